@@ -29,11 +29,11 @@ func fixturePatient() *ppb.Patient {
 			{System: &dtpb.ContactPoint_SystemCode{Value: cpb.ContactPointSystemCode_PHONE}, Value: &dtpb.String{Value: "555-1234"}, Rank: &dtpb.PositiveInt{Value: 1}},
 			{System: &dtpb.ContactPoint_SystemCode{Value: cpb.ContactPointSystemCode_EMAIL}, Value: &dtpb.String{Value: "j@example.org"}, Rank: &dtpb.PositiveInt{Value: 2}},
 		},
-		Gender:    &ppb.Patient_GenderCode{Value: cpb.AdministrativeGenderCode_MALE},
-		BirthDate: &dtpb.Date{ValueUs: bd.UnixMicro(), Timezone: "Z", Precision: dtpb.Date_DAY},
-		Deceased:  &ppb.Patient_DeceasedX{Choice: &ppb.Patient_DeceasedX_Boolean{Boolean: &dtpb.Boolean{Value: false}}},
+		Gender:        &ppb.Patient_GenderCode{Value: cpb.AdministrativeGenderCode_MALE},
+		BirthDate:     &dtpb.Date{ValueUs: bd.UnixMicro(), Timezone: "Z", Precision: dtpb.Date_DAY},
+		Deceased:      &ppb.Patient_DeceasedX{Choice: &ppb.Patient_DeceasedX_Boolean{Boolean: &dtpb.Boolean{Value: false}}},
 		MultipleBirth: &ppb.Patient_MultipleBirthX{Choice: &ppb.Patient_MultipleBirthX_Integer{Integer: &dtpb.Integer{Value: 2}}},
-		Address: []*dtpb.Address{{City: &dtpb.String{Value: "Springfield"}, Line: []*dtpb.String{{Value: "1 Main St"}, {Value: "Apt 2"}}}},
+		Address:       []*dtpb.Address{{City: &dtpb.String{Value: "Springfield"}, Line: []*dtpb.String{{Value: "1 Main St"}, {Value: "Apt 2"}}}},
 		Contact: []*ppb.Patient_Contact{
 			{Name: &dtpb.HumanName{Family: &dtpb.String{Value: "Doe"}, Given: []*dtpb.String{{Value: "Jane"}}}},
 			{Name: &dtpb.HumanName{Given: []*dtpb.String{{Value: "Jim"}, {Value: "Bo"}}}},
